@@ -1081,6 +1081,13 @@ struct Interp
         return "dead";
       return s->base()->blocked() ? "1" : "0";
     }
+    if (op == "boolS?" && N(1))
+    {
+      SlotObj* s = get(S, idx(w[1]));
+      if (!s)
+        return "dead";
+      return static_cast<bool>(*s->base()) ? "1" : "0";
+    }
     if (op == "emptyS?" && N(1))
     {
       SlotObj* s = get(S, idx(w[1]));
